@@ -321,6 +321,7 @@ type Recorder struct {
 	sentinel *core.RegionInfo
 	mu       sync.Mutex
 	streams  map[uint64]recStream
+	seq      uint64
 }
 
 // NewRecorder binds recording streams for the given store ids (and an internal sentinel store).
@@ -376,6 +377,9 @@ func (r *Recorder) Collect() []*pdpb.RegionHeartbeatResponse {
 			if m.GetRegionId() == sentinelRegion {
 				return out
 			}
+			if m.GetRegionId() == probeRegion { // a late answer to a binding probe
+				continue
+			}
 			out = append(out, m)
 		case <-time.After(5 * time.Second):
 			panic("tikvsim.Recorder: sentinel lost")
@@ -398,7 +402,8 @@ func (r *Recorder) Rebind(store uint64) []*pdpb.RegionHeartbeatResponse {
 	r.streams[store] = recStream{r, new(int32)}
 	r.HB.BindStream(store, r.streams[store])
 	p := &metapb.Peer{Id: store, StoreId: store}
-	probe := core.NewRegionInfo(&metapb.Region{Id: probeRegion, Peers: []*metapb.Peer{p}, RegionEpoch: &metapb.RegionEpoch{}}, p)
+	r.seq++ // answers to the probes of an earlier Rebind may still be on their way: every call has its own mark
+	probe := core.NewRegionInfo(&metapb.Region{Id: probeRegion, Peers: []*metapb.Peer{p}, RegionEpoch: &metapb.RegionEpoch{Version: r.seq}}, p)
 	var out []*pdpb.RegionHeartbeatResponse
 	for try := 0; try < 500; try++ {
 		r.HB.SendMsg(probe, &pdpb.RegionHeartbeatResponse{})
@@ -408,7 +413,10 @@ func (r *Recorder) Rebind(store uint64) []*pdpb.RegionHeartbeatResponse {
 			select {
 			case m := <-r.ch:
 				if m.GetRegionId() == probeRegion {
-					return out
+					if m.GetRegionEpoch().GetVersion() == r.seq {
+						return out
+					}
+					continue
 				}
 				out = append(out, m)
 			case <-deadline:
